@@ -237,7 +237,7 @@ func main() {
 	}
 	o.Stats["corpus_items"] = len(corpus)
 	nearMiss := []string{"ident-swap", "ident-undefined", "type-swap", "lit-swap", "drop-arg", "add-arg", "drop-line", "dup-line",
-		"drop-return", "define-assign", "lhs-count", "unused-var", "unused-import", "op-swap", "dup-decl"}
+		"drop-return", "define-assign", "lhs-count", "unused-var", "unused-import", "op-swap", "dup-decl", "dup-case"}
 	// 1. corpus as is (a rotating slice in quick, all in thorough)
 	for i, it := range corpus {
 		if thorough || (i+int(f.Seed))%4 == 0 {
